@@ -179,30 +179,10 @@ def run(ctx):
             r4.missing(failmsg)
         else:
             r4.check(ok, key, okmsg, failmsg)
-    # every place of Client::handle that takes a reply from the server takes all of it: a direct receive (not through send_and_receive_loop)
-    # sits in a loop that is left only when the server has no more data for this request
-    if h:
-        rm_h = [c.block for c in h.calls("pgcat::messages::read_message")]
-        msg_heads = {hd for hd in loop_headers(h) if any(b_ in natural_loop(h, hd) for b_ in rm_h)}
-        hsw4 = switches(h)
-        T4, F4, _ = call_bool_edges(h, "pgcat::server::Server::is_data_available", switches_cache=hsw4)
-        succ4 = h.succ("n")
-        for k_, c in enumerate(h.calls(RSM)):
-            loops_ = sorted((len(natural_loop(h, hd)), hd) for hd in loop_headers(h) if hd not in msg_heads and c.block in natural_loop(h, hd) and not h.is_poll_loop(hd)) if hasattr(h, "is_poll_loop") else \
-                     sorted((len(natural_loop(h, hd)), hd) for hd in loop_headers(h) if hd not in msg_heads and c.block in natural_loop(h, hd))
-            # the await poll loop around the call itself does not count: a receive loop contains the call *and* a test of is_data_available
-            loops_ = [(n_, hd) for n_, hd in loops_ if any(e[0] in natural_loop(h, hd) for e in F4)]
-            ok_loop = False
-            if loops_:
-                L = natural_loop(h, loops_[0][1])
-                exits = {(u, v) for u in L for v in succ4[u] if v not in L and not h.blocks[v]["cleanup"] and h.blocks[v]["term"]["k"] != "unreachable"}
-                err_blocks = {cc_.block for cc_ in h.calls("re:FromResidual<.*>::from_residual$")}
-                leaves_fn = lambda v: not (set(h.reach([v])) & msg_heads)   # goes to a return (error exits), never back to a message loop
-                bad_ex = [(u, v) for (u, v) in exits if (u, v) not in F4 and v not in err_blocks and u not in err_blocks and not any(h.dominates(e_, v) for e_ in err_blocks) and not leaves_fn(v)]
-                ok_loop = bool(exits) and not bad_ex
-            r4.check(ok_loop, "handle-receive-site-loops#%d" % (k_ + 1), "the receive at client.rs:%s repeats until is_data_available() is false" % c.span.split(":")[1],
-                     "Client::handle takes one piece of the server's reply at client.rs:%s and goes on: Server::recv hands a large reply out in pieces, so after `COPY t FROM STDIN; SELECT <many rows>` + CopyDone the client gets a prefix without ReadyForQuery, "
-                     "the connection returns to the pool with the rest unread, and the next client receives those rows as the answer to its own query" % c.span.split(":")[1], c.where())
+    # every place of Client::handle that takes a reply from the server takes all of it (shared with C01-R8)
+    from common import handle_receive_site_findings
+    for key, ok_loop, okmsg, failmsg, where in handle_receive_site_findings(F):
+        r4.check(ok_loop, key, okmsg, failmsg, where)
 
     # ---------------- R5 flush point forwards everything buffered
     r5 = ctx.rule("C03-R5", "at Sync the buffered batch plus the Sync message is sent, and Client.buffer is cleared only after the send", floor=2)
